@@ -88,6 +88,9 @@ func checkC11(c C11Case) *Failure {
 		lr = c.LR
 	}
 	opt := optimizers.NewSGD(conf)
+	if conf != nil {
+		conf.LearningRate = 123 // the caller reuses its config struct: the optimizer is configured already
+	}
 	// one activation object and one loss object for the whole history, as in a training loop
 	actForward, err := c.Act.layer()
 	if err != nil {
@@ -137,6 +140,23 @@ func checkC11(c C11Case) *Failure {
 		if !ok || (c.Loss != "mse" && gap < 1e-13) {
 			evid.Discard("near_kink")
 			return nil
+		}
+		// a diverged trajectory (weights so large that the activation leaves its domain and
+		// the defined loss or gradient is no longer finite) ends the comparison
+		finite := !math.IsNaN(L.V) && !math.IsInf(L.V, 0)
+		for _, tv := range L.T {
+			if math.IsNaN(tv) || math.IsInf(tv, 0) {
+				finite = false
+			}
+		}
+		for _, v := range append(append([]float64{}, wV...), bV...) {
+			if math.Abs(v) > 1e6 {
+				finite = false
+			}
+		}
+		if !finite {
+			evid.Discard("diverged_trajectory")
+			break
 		}
 		// the library's step
 		x := lib.MustNew([]int{st.Batch, c.F}, st.X, false)
